@@ -162,12 +162,36 @@ theorem C14_restore_adopts_snapshot (n : Node) (d : Node.Disk) (i t : Nat) (c : 
     (n.restore d).snapTerm = t := by
   unfold Node.restore; rw [h]; simp
 
-/-- **Term, vote and log after a restart are exactly what the storages return.** -/
+/-- **Term, vote and log after a restart are exactly what the storages return** — except that a log
+    which stops short of the newest snapshot's last entry, or contradicts it, is discarded up to the
+    snapshot (the interrupted installation is finished: fix S21). -/
 theorem C14_restore_reads_disk (n : Node) (d : Node.Disk) :
-    (n.restore d).term = d.term ∧ (n.restore d).votedFor = d.vote ∧ (n.restore d).log = d.log := by
+    (n.restore d).term = d.term ∧ (n.restore d).votedFor = d.vote ∧
+    (n.restore d).log = (match d.snap with
+      | some (i, t, _) => if Node.logMissesBoundary d.log i t then d.log.discard i t else d.log
+      | none => d.log) := by
   unfold Node.restore; cases d.snap with
   | none => simp
   | some x => obtain ⟨i, t, c⟩ := x; simp
+
+/-- **After a restart the log reaches the boundary** (fix S21): with a snapshot on disk the restored log
+    either starts at the snapshot (discarded) or its last index is at least the snapshot's label — the
+    state in which "log too short" and "snapshot has nothing new" used to alternate for ever is gone. -/
+theorem C14_restore_log_reaches_boundary (n : Node) (d : Node.Disk) (i t : Nat) (c : Config) (h : d.snap = some (i, t, c)) :
+    i ≤ (n.restore d).log.lastIndex := by
+  have := (C14_restore_reads_disk n d).2.2
+  rw [h] at this
+  simp only at this
+  rw [this]
+  by_cases hm : Node.logMissesBoundary d.log i t = true
+  · rw [if_pos hm]; simp [Log.discard, Log.lastIndex]
+  · rw [if_neg hm]
+    unfold Node.logMissesBoundary at hm
+    simp only [Bool.or_eq_true, decide_eq_true_eq, not_or] at hm
+    omega
+
+theorem discard_wf (l : Log) (i t : Nat) : (l.discard i t).WF := by
+  simp [Log.discard, Log.WF, Log.Contig]
 
 /-- **A started node is a well-formed follower** when the directory is (the recovered log is
     well-formed, its base does not exceed the snapshot label) and the object was (in-place
@@ -185,15 +209,24 @@ theorem C14_start_wf (n : Node) (now : Nat) (rf st : Bool) (d : Node.Disk) (hs :
   cases hsn : d.snap with
   | none =>
     have hk := C14_restore_keeps_applied n d hsn
-    rw [hsn] at hb
+    rw [hsn] at hb hrd
+    simp only at hrd
     exact ⟨by simp only; rw [hrd.2.2]; exact hw, by simp only; rw [hrd.2.2, hk.2.2]; exact hb,
            by simp only; rw [hk.1, hk.2.2]; exact hn.snap_le_applied, by simp only; rw [hk.1, hk.2.1]; exact hn.applied_le_commit⟩
   | some x =>
     obtain ⟨i, t, c⟩ := x
     have hk := C14_restore_adopts_snapshot n d i t c hsn
-    rw [hsn] at hb
-    exact ⟨by simp only; rw [hrd.2.2]; exact hw, by simp only; rw [hrd.2.2, hk.2.2.1]; exact hb,
-           by simp only; rw [hk.1, hk.2.2.1]; exact Nat.le_refl _, by simp only; rw [hk.1, hk.2.1]; exact Nat.le_refl _⟩
+    rw [hsn] at hb hrd
+    simp only at hb hrd
+    refine ⟨?_, ?_, by simp only; rw [hk.1, hk.2.2.1]; exact Nat.le_refl _, by simp only; rw [hk.1, hk.2.1]; exact Nat.le_refl _⟩
+    · simp only; rw [hrd.2.2]
+      split
+      · exact discard_wf _ _ _
+      · exact hw
+    · simp only; rw [hrd.2.2, hk.2.2.1]
+      split
+      · simp [Log.discard]
+      · exact hb
 
 /-- **A local snapshot that was overtaken by an installed one is never published** (fix S10): if the
     node's boundary has reached the label while `fsm.Snapshot` ran, `takeSnapshot` changes nothing and
